@@ -9,11 +9,15 @@ pub mod c06;
 #[cfg(feature = "full")]
 pub mod c07;
 #[cfg(feature = "full")]
+pub mod c08;
+#[cfg(feature = "full")]
 pub mod c09;
 #[cfg(feature = "full")]
 pub mod c10;
 #[cfg(feature = "full")]
 pub mod c11;
+#[cfg(feature = "full")]
+pub mod c12;
 #[cfg(feature = "full")]
 pub mod c13;
 #[cfg(feature = "full")]
@@ -59,9 +63,11 @@ pub fn all() -> Vec<Property> {
         v.push(Property { id: "C05", level: "exploration", build: c05::build });
         v.push(Property { id: "C06", level: "exploration", build: c06::build });
         v.push(Property { id: "C07", level: "exploration", build: c07::build });
+        v.push(Property { id: "C08", level: "exploration", build: c08::build });
         v.push(Property { id: "C09", level: "exploration", build: c09::build });
         v.push(Property { id: "C10", level: "exploration", build: c10::build });
         v.push(Property { id: "C11", level: "exploration", build: c11::build });
+        v.push(Property { id: "C12", level: "exploration", build: c12::build });
         v.push(Property { id: "C13", level: "exploration", build: c13::build });
         v.push(Property { id: "C14", level: "exploration", build: c14::build });
         v.push(Property { id: "C15", level: "exploration", build: c15::build });
